@@ -22,6 +22,7 @@
 #include <set>
 #include <streambuf>
 #include <thread>
+#include <unordered_map>
 
 namespace nl = nitro::log;
 
@@ -48,6 +49,7 @@ struct RaceBuf : std::streambuf
     void put(char c)
     {
         int pos = len; // read
+        sched_observe(static_cast<unsigned long long>(pos) + 1000);
         sched_point(SP_BYTE, this);
         if (pos < static_cast<int>(sizeof staging))
             staging[pos] = c; // write
@@ -75,6 +77,7 @@ struct RaceBuf : std::streambuf
         sched_point(SP_SYNC, this);
         int n = len;
         std::string tmp(staging, staging + std::min<int>(n, static_cast<int>(sizeof staging)));
+        sched_observe(mc::hash(tmp) ^ static_cast<unsigned long long>(n));
         sched_point(SP_SYNC, this);
         out += tmp;
         sched_point(SP_SYNC, this);
@@ -95,6 +98,17 @@ static RaceBuf& buf()
 {
     static RaceBuf b;
     return b;
+}
+// digest of the shared state outside the scheduler's model: everything the stream buffer holds
+extern "C" unsigned long long buffer_state()
+{
+    auto& b = buf();
+    int cur = b.len;
+    int n = std::min<int>(cur, static_cast<int>(sizeof b.staging));
+    uint64_t h = mc::fnv(b.staging, n > 0 ? n : 0);
+    h = mc::hash(b.out, h);
+    h = mc::hash2(h, (static_cast<uint64_t>(cur) << 32) ^ (static_cast<uint64_t>(static_cast<int>(b.inside)) << 8) ^ static_cast<uint64_t>(b.concurrent_entries));
+    return h;
 }
 
 // ---------------------------------------------------------------------------------------------
@@ -370,6 +384,9 @@ struct Explore
     bool cut = false;
     int ci;
     bool fresh = false; // every execution in a process of its own (first use of the sink)
+    bool prune = false; // stop at choice points whose whole program state was already explored with at least this budget
+    std::unordered_map<uint64_t, int> seen_state;
+    long pruned = 0;
 
     Exec run(const std::vector<unsigned char>& choices)
     {
@@ -441,6 +458,21 @@ struct Explore
         for (int i = static_cast<int>(prefix.size()); i < e.res.n_points; i++)
         {
             auto& p = e.res.points[i];
+            if (prune)
+            {
+                // same program state (threads' progress and observations, mutex owners, buffer) and same running thread,
+                // reached before with at least as much preemption budget left: everything from here on has been explored
+                uint64_t key = mc::hash2(p.state, p.running);
+                int remaining = bound - pre[i];
+                auto it = seen_state.find(key);
+                if (it != seen_state.end() && it->second >= remaining)
+                {
+                    pruned++;
+                    break;
+                }
+                seen_state[key] = remaining;
+                rep->states.insert(mc::hash2(key, mc::hash(cfg->name)));
+            }
             // state of the exploration at this point for the transition count
             rep->transitions.insert(mc::hash(cfg->name + trace_str(e.res).substr(0, i) + "|" + std::to_string(p.n_enabled)));
             for (int alt = 1; alt < p.n_enabled; alt++)
@@ -521,6 +553,7 @@ int main(int argc, char** argv)
     auto cs = configs();
     std::cout.rdbuf(&buf());
     std::cerr.rdbuf(&buf());
+    sched_set_state_fn(buffer_state);
     // Nothing is logged before the scheduled threads run: the first use of a sink (construction of its function-local
     // statics, anything it decides "on first use") happens inside the explored executions.  In the "first use" jobs every
     // single execution runs in a process of its own, so that every explored schedule is a first use.
@@ -554,6 +587,7 @@ int main(int argc, char** argv)
     {
         int cfg, bound;
         bool fresh = false;
+        bool prune = false;
     };
     std::vector<Job> jobs;
     for (size_t i = 0; i < cs.size(); i++)
@@ -565,6 +599,13 @@ int main(int argc, char** argv)
         if (cs[i].name.find("4x1") != std::string::npos)
             k = a.thorough() ? 2 : 1;
         jobs.push_back({ static_cast<int>(i), k });
+    }
+    // every interleaving (no preemption bound), made finite by state hashing at the choice points
+    for (size_t i = 0; i < cs.size(); i++)
+    {
+        bool small = cs[i].threads.size() == 2 || cs[i].name.find("3x1") != std::string::npos;
+        if (small || a.thorough())
+            jobs.push_back({ static_cast<int>(i), 99, false, true });
     }
     // first use of the sink: every execution in a fresh process
     for (size_t i = 0; i < cs.size(); i++)
@@ -584,7 +625,7 @@ int main(int argc, char** argv)
             ctx.each([&] { return mc::Desc{ mc::J().n("config", j.cfg).s("config_name", cs[j.cfg].name).n("bound", j.bound).b("first_use", j.fresh).str(), cs[j.cfg].name }; },
                      [&](mc::Report& rep) {
                          auto& c = cs[j.cfg];
-                         std::string label = c.name + (j.fresh ? " (first use, fresh process per execution)" : "");
+                         std::string label = c.name + (j.fresh ? " (first use, fresh process per execution)" : j.prune ? " (every interleaving, state hashing)" : "");
                          // determinism: the default schedule twice, and one schedule with two forced switches twice
                          auto runner = [&](const std::vector<unsigned char>& ch) { return j.fresh ? run_schedule_fresh(c, ch) : run_schedule(c, ch); };
                          auto d1 = runner({}), d2 = runner({});
@@ -607,11 +648,12 @@ int main(int argc, char** argv)
                          }
                          int completed = -1;
                          long total = 0;
-                         for (int k = 0; k <= j.bound; k = (k >= 4 && j.bound == 99) ? 99 : k + 1)
+                         for (int k = j.prune ? 99 : 0; k <= j.bound; k = (k >= 4 && j.bound == 99) ? 99 : k + 1)
                          {
                              Explore ex;
                              ex.cfg = &c;
                              ex.fresh = j.fresh;
+                             ex.prune = j.prune;
                              ex.ci = j.cfg;
                              ex.bound = k;
                              ex.rep = &rep;
@@ -620,6 +662,11 @@ int main(int argc, char** argv)
                              ex.explore({});
                              total += ex.schedules;
                              rep.set_max("max_points_per_execution", ex.max_points);
+                             if (j.prune)
+                             {
+                                 rep.count("distinct_program_states [" + label + "]", static_cast<long long>(ex.seen_state.size()));
+                                 rep.count("continuations_pruned_by_state_hash [" + label + "]", ex.pruned);
+                             }
                              rep.count("schedules k=" + std::string(k == 99 ? "unbounded" : std::to_string(k)) + " [" + label + "]", ex.schedules);
                              rep.set_max("max_distinct_outputs [" + label + "]", static_cast<long long>(ex.outputs.size()));
                              if (ex.cut)
@@ -645,8 +692,11 @@ int main(int argc, char** argv)
     auto rep = sh.run();
     rep.notes["rule"] = "2-3 real threads x 1-2 records (lengths 2-6, severities trace..fatal) through logger<stdout_mt|StdErrThreaded>; scheduling "
                         "points: mutex lock/unlock/trylock, every byte and three phases of every flush of the non-thread-safe buffer, thread "
-                        "start/exit; all schedules with <= k preemptions, k iterated; states = (configuration, completed bound), transitions = "
-                        "distinct (schedule prefix, enabled set) choice points";
+                        "start/exit; (a) all schedules with <= k preemptions, k iterated; (b) every interleaving without a bound, made finite by "
+                        "hashing the whole program state at every choice point (threads' progress and observation digests, mutex owners, "
+                        "buffer contents) - a continuation from a state already explored with at least the same budget is not repeated; (c) "
+                        "first use: every execution in a fresh process; states = distinct program states at choice points plus (configuration, "
+                        "completed bound) pairs, transitions = distinct (schedule prefix, enabled set) choice points";
     mc::write_out(a, rep);
     return 0;
 #endif
